@@ -4,7 +4,7 @@
 _Bool env_src_on;
 #ifdef XV_INT
 static void env_td(void);
-void xv_env(void) { if (env_src_on && mon_src) *mon_src = nondet_uptr(); env_td(); }   /* other threads may store anything to the source at any time */
+void xv_env(void) { if (env_src_on && mon_src) *mon_src = nondet_uptr(); env_td(); }   /* env_td: generic global-epoch step for the real update_global_epoch */   /* other threads may store anything to the source at any time */
 #endif
 unsigned g_base;
 static void g_setup(struct guard* a, struct guard* b) {
